@@ -217,9 +217,14 @@ fn apply_delta(py: Python, py_src_buf: Py<PyAny>, py_delta: Py<PyAny>) -> PyResu
                 || cp_off > src_size
                 || cp_off > src_size - cp_size
                 || cp_size > dest_size
-                || outindex > dest_size - cp_size
             {
                 break;
+            }
+            // A copy that would overflow the declared target size is an
+            // error wherever it occurs (the pure-Python implementation
+            // agrees); breaking out here would accept it as a last operation.
+            if outindex > dest_size - cp_size {
+                return Err(ApplyDeltaError::new_err("Not enough space to copy"));
             }
 
             out.extend_from_slice(&src_buf[cp_off..cp_off + cp_size]);
